@@ -1172,7 +1172,27 @@ def regenerate(ctx):
     import importlib
 
     c02 = importlib.import_module("props.c02" if __name__.startswith("props.") else "c02")
-    c02.regenerate(ctx)
+    try:
+        c02.regenerate(ctx)
+    except Exception as ex:  # noqa
+        # C02's generator left its translated subset (its own check reports the details).  C01 needs Gen/StorageTables.lean
+        # from it, which that function writes last and which cannot be produced separately (it embeds the document level
+        # part).  ONE broken obligation naming the foreign generator; the rest of C01 (Lean build against the last generated
+        # StorageTables, correspondence, oracle) goes on.
+        broken_cls = type("Broken", (), {})
+        for b in getattr(ctx, "broken", []):
+            broken_cls = type(b)
+            break
+        else:
+            import importlib as _il
+            for name in ("runner", "harness.runner"):
+                try:
+                    broken_cls = _il.import_module(name).Broken
+                    break
+                except Exception:  # noqa
+                    continue
+        ctx.broken.append(broken_cls("translation", "C02 generator (harness/props/c02.py regenerate -> Gen/StorageTables.lean, used by Props/C01 section 6)",
+                                     f"{type(ex).__name__}: {str(ex)[:500]}"))
 
 
 # ====================================================================================== protocol values
